@@ -9,6 +9,7 @@ Code inspired by/based on https://github.com/tomchy/suit-composer.
 """
 from __future__ import annotations
 from dataclasses import dataclass
+from collections.abc import Mapping
 from typing import cast, Any
 import functools
 import binascii
@@ -159,7 +160,7 @@ class SuitObject(PrettyPrintHelperMixin):
         # Ensure that cbor2.loads() will not consume all the available memory
         SuitObject.validate_cbor(cbstr)
         try:
-            return cbor2.loads(cbstr)
+            data = cbor2.loads(cbstr)
         except ImportError as err:
             # Can occur due to possible incompatibilities in packages between virtual environment and system scope
             # (seen on Windows, where cbor2 was installed globally and in virtual environment)
@@ -178,6 +179,30 @@ class SuitObject(PrettyPrintHelperMixin):
             #   d81e84ffffffff -> SystemError
             #   d8234129 -> re.error
             raise ValueError("Cannot deserialize data!")
+        SuitObject.reject_shared_values(data)
+        return data
+
+    @staticmethod
+    def reject_shared_values(data: Any) -> None:
+        """Refuse CBOR value sharing (tags 28/29), a shared container is expanded again by every re-serialization."""
+        seen = set()
+        pending = [data]
+        while pending:
+            item = pending.pop()
+            if isinstance(item, cbor2.CBORTag):
+                children = [item.value]
+            elif isinstance(item, Mapping):
+                children = [*item.keys(), *item.values()]
+            elif isinstance(item, (list, tuple, set, frozenset)):
+                children = list(item)
+            else:
+                continue
+            if not children:
+                continue
+            if id(item) in seen:
+                raise ValueError("CBOR shared values are not supported!")
+            seen.add(id(item))
+            pending.extend(children)
 
     @staticmethod
     def serialize_cbor(obj: Any) -> bytes:
